@@ -105,7 +105,18 @@ func KContract(name string, variant int, opts ...asm.ManifestOpt) *asm.Contract 
 	b.Op(opcode.PUSHT, opcode.RET)
 
 	m("onNEP17Payment", 3, true, false)
-	b.InitSlot(0, 3).Op(opcode.LDARG2, opcode.ISNULL).Jmp(opcode.JMPIFL, "pay_ok")
+	b.InitSlot(0, 3).Op(opcode.LDARG2, opcode.ISNULL).Jmp(opcode.JMPIFNOTL, "pay_data")
+	// no data. A MINT (no sender: the GAS reward NEO pays when the balance or the vote of the contract changes, also
+	// when its account is blocked) runs the call stored under "onmint" (serialised [hash, method, flags, args]), once.
+	b.Op(opcode.LDARG0, opcode.ISNULL).Jmp(opcode.JMPIFNOTL, "pay_ok")
+	b.Str("onmint").Syscall("System.Storage.GetContext").Syscall("System.Storage.Get")
+	b.Op(opcode.DUP, opcode.ISNULL).Jmp(opcode.JMPIFL, "pay_drop")
+	b.Str("onmint").Syscall("System.Storage.GetContext").Syscall("System.Storage.Delete")
+	b.Op(opcode.PUSH1, opcode.PACK, opcode.PUSH15).Str("deserialize").Bytes(nativehashes.StdLib.BytesBE()).Syscall("System.Contract.Call")
+	b.Op(opcode.UNPACK, opcode.DROP) // [h, m, f, args] -> h on top, then m, f, args
+	b.Syscall("System.Contract.Call").Op(opcode.DROP, opcode.RET)
+	b.Label("pay_drop").Op(opcode.DROP, opcode.RET)
+	b.Label("pay_data")
 	b.Op(opcode.LDARG2).Ins(opcode.ISTYPE, 0x40).Jmp(opcode.JMPIFL, "pay_call")
 	b.Str("payment rejected").Op(opcode.THROW)
 	b.Label("pay_call")
